@@ -56,6 +56,21 @@ def check(run):
     stats = json.load(open(os.path.join(wd, "stats.json")))
     files = sorted(glob.glob(os.path.join(wd, "cases_C12_*.v")))
     res = vlib.run_case_files(files)
+    # files with disagreements are evaluated once more with the model of the PINNED tree (fixed = false):
+    # a case that only the repaired model rejects is exactly finding F-C12 (io.EOF inside a section ends
+    # the iteration silently), i.e. fixes/C12_eof.diff is not applied to the tree under check
+    pinned_only = {}
+    pdir = os.path.join(run.wd, "pinned")
+    shutil.rmtree(pdir, ignore_errors=True); os.makedirs(pdir)
+    pfiles = []
+    for f, (r, log) in sorted(res.items()):
+        if r:
+            pf = os.path.join(pdir, os.path.basename(f))
+            open(pf, "w").write(open(f).read().replace("check_all true", "check_all false"))
+            pfiles.append(pf)
+    if pfiles:
+        for pf, (r, log) in vlib.run_case_files(pfiles).items():
+            pinned_only[os.path.basename(pf)] = set(r) if r is not None else None
     corr_ok, enc_ok = True, True
     nmis = 0
     for f, (r, log) in sorted(res.items()):
@@ -75,9 +90,13 @@ def check(run):
                 continue
             corr_ok = False
             case = meta["cases"][cid]
-            run.violation(_key_for(case["tag"]),
-                          "car.Decode disagrees with the proved model on %s; implementation returned: %s"
-                          % (_describe(meta, case), case["obs"][:300]),
+            pm = pinned_only.get(os.path.basename(f))
+            is_fc12 = pm is not None and cid not in pm
+            run.violation("eof-inside-section" if is_fc12 else _key_for(case["tag"]),
+                          "car.Decode disagrees with the proved model on %s; implementation returned: %s%s"
+                          % (_describe(meta, case), case["obs"][:300],
+                             " -- this is the behaviour of the pinned tree (an io.EOF after the first byte of a section ends the "
+                             "iteration silently); fixes/C12_eof.diff is not applied" if is_fc12 else ""),
                           dict(file=f, case=cid, tag=case["tag"], archive=_archive_hex(meta, case),
                                observed=case["obs"], message_decode=case["msg"]))
     for d in (stats.get("direct") or []):
